@@ -430,4 +430,26 @@ theorem histOf_spec (cls : CipherClass) (macLen : Nat) (evs : List Ev) (cars : L
           | nil => simp
           | cons r rs => simp only [List.zipWith_cons_cons, List.flatten_cons, i5]; rfl
 
+theorem protect_app (P : Prims) (L : SealLaws P) (cls : CipherClass) (ver : Bytes) (sd : SDir) (typ : UInt8)
+    (pt : Bytes) (f : Fresh) :
+    (protect P L cls ver sd typ pt f).1.appKey = sd.appKey ∧ (protect P L cls ver sd typ pt f).1.appIv = sd.appIv := by
+  cases cls <;> exact ⟨rfl, rfl⟩
+
+/-- sender state after the server's and the client's Finished flights (one Finished each): both directions use the
+    application traffic keys, sequence numbers restarted -/
+theorem after_two_flights (P : Prims) (L : SealLaws P) (cls : CipherClass) (ver : Bytes) (x : Snd)
+    (sfl cfl : List HsMsg) (fs fc : Fresh) (h1 : finCount sfl = 1) (h2 : finCount cfl = 1) :
+    let x' := after P L cls ver x ((SEv.hs13 true sfl fs).evs ++ (SEv.hs13 false cfl fc).evs)
+    x'.c = { x.c with key := x.c.appKey, iv := x.c.appIv, seq := 0,
+                      last := (protect P L cls ver x.c 22 (encMsgs cfl) fc).1.last,
+                      off := (protect P L cls ver x.c 22 (encMsgs cfl) fc).1.off } ∧
+    x'.s = { x.s with key := x.s.appKey, iv := x.s.appIv, seq := 0,
+                      last := (protect P L cls ver x.s 22 (encMsgs sfl) fs).1.last,
+                      off := (protect P L cls ver x.s 22 (encMsgs sfl) fs).1.off } := by
+  have pa := fun sd pt f => protect_app P L cls ver sd 22 pt f
+  simp only [SEv.evs, h1, h2, List.replicate_one, List.cons_append, List.nil_append, after, List.foldl_cons,
+    List.foldl_nil, step, Snd.set, Snd.get, switchToApp, if_true, Bool.false_eq_true, if_false, pa, (pa _ _ _).1,
+    (pa _ _ _).2]
+  exact ⟨trivial, trivial⟩
+
 end TLX.Lemmas.Pipeline
